@@ -14,6 +14,9 @@ def registry():
     from mc.checks import recheck
     for pid in ("C04", "C05", "C16"):
         reg[pid] = (lambda p=pid: recheck.make(p))
+    from mc.checks import editfam
+    for pid in ("C06", "C07", "C17"):
+        reg[pid] = (lambda p=pid: editfam.make(p))
     return reg
 
 
